@@ -9,6 +9,7 @@ import (
 	"io"
 	"os"
 	"path/filepath"
+	"sort"
 	"strconv"
 	"strings"
 
@@ -44,6 +45,27 @@ func digestOf(v interface{}, err error) string {
 
 func execGrowth(vec J, out *Writer) {
 	switch vec["k"].(string) {
+	case "clheader":
+		doc := S(vec["line"]) + "\n\n  * x\n\n -- A <a@b.c>  Mon, 02 Jan 2006 15:04:05 -0700\n"
+		e, err := changelog.ParseOne(bufio.NewReader(strings.NewReader(doc)))
+		rec := J{"ev": "clheader", "in": vec, "ok": err == nil && e != nil}
+		if err == nil && e != nil {
+			keys := []string{}
+			for k := range e.Arguments {
+				keys = append(keys, k)
+			}
+			sort.Strings(keys)
+			args := []interface{}{}
+			for _, k := range keys {
+				args = append(args, []interface{}{B(k), B(e.Arguments[k])})
+			}
+			rec["source"], rec["target"], rec["args"] = B(e.Source), B(e.Target), args
+			rec["ver"] = J{"e": B(strconv.FormatUint(uint64(e.Version.Epoch), 10)), "u": B(e.Version.Version), "r": B(e.Version.Revision)}
+		} else {
+			rec["source"], rec["target"], rec["args"] = B(""), B(""), []interface{}{}
+			rec["ver"] = J{"e": B("0"), "u": B(""), "r": B("")}
+		}
+		out.Put(rec)
 	case "vacc":
 		vj := M(vec["v"])
 		e, _ := strconv.ParseUint(S(vj["e"]), 10, 64)
